@@ -921,6 +921,8 @@ class OpsMixin(object):
             var, lo, hi, elem, sv = self.loop_binder(seq, node)
             body = to_node(elem)
             return SSeqRep(var, sv.key(), body) if sv is not None else SRep(var, lo, hi, body)
+        if isinstance(seq, SeqV) and seq.kind == "rowstrings":
+            return self.rows_chunk(seq.spec, seq.node, node)
         if isinstance(seq, SeqV) and seq.kind == "guarded":
             nd = self._concat_all(seq.part, node)
             for c, v in reversed(seq.conds):
@@ -943,7 +945,7 @@ class OpsMixin(object):
         else:
             sepn = SLit(sep.v)
         seq = seq if isinstance(seq, ChunkListV) else self.as_iterable(seq, node)
-        if isinstance(sepn, SLit) and sepn.text == "" and isinstance(seq, SeqV) and seq.kind in ("concat", "nested"):
+        if isinstance(sepn, SLit) and sepn.text == "" and isinstance(seq, SeqV) and seq.kind in ("concat", "nested", "rowstrings"):
             return StrV(self._concat_all(seq, node))
         if isinstance(seq, ListV):
             if all(isinstance(i, Const) and isinstance(i.v, str) for i in seq.items) and isinstance(sepn, SLit):
